@@ -42,6 +42,7 @@ FnSet(f, k, x) == [i \in (DOMAIN f) \cup {k} |-> IF i = k THEN x ELSE f[i]]
 \* a slot: None or [id, start, len, res, st, dirty, refs]
 \*   st: "NW" needs write, "NF" needs flush, "CL" clean; dirty: has dirty bounds; refs: extra handles held by callers
 IsReg(s) == "id" \in DOMAIN s
+IsRdr(x) == "nm" \in DOMAIN x
 
 R0 == [ slots |-> <<>>,              \* Regions.index_to_region
         lreg |-> {},                 \* Layout.start_to_region as set of <<start, slot>>
@@ -52,11 +53,13 @@ R0 == [ slots |-> <<>>,              \* Regions.index_to_region
         metaLen |-> 0,               \* slots in the regions file
         data |-> EmptyFn,            \* volatile image of the data file (non-zero cells only)
         vmeta |-> EmptyFn,           \* volatile image of the regions file: slot -> [id,start,len,res] (absent = zero bytes)
+        rdr |-> None,                \* a live Reader: [nm, start, len] snapshot taken at creation (holds the mmap read lock)
         io |-> <<>>,                 \* I/O events of the last call
         path |-> "-",                \* placement path taken by the last write
         res |-> "ok" ]
 
 G0 == [ ref |-> [x \in {} |-> <<>>],   \* reference contents
+        rseen |-> <<>>,                 \* per offset of the live reader: values its region held since the reader was created
         persist |-> {},                 \* names whose metadata slot was ever written (survive reopen)
         must |-> "ok", dev |-> {}, nxt |-> 1, last |-> <<>> ]
 
@@ -112,6 +115,12 @@ Promote(s, ps) ==
        IN Promote(InsertHole(s2, fstart, size1 + after), ps \ {p})
 
 PromotePending(s) == [Promote(s, s.pend) EXCEPT !.pend = {}]
+
+\* intended design (deviation D8 is its absence): an extent that a live reader still maps stays pending
+ReaderPins(s, p) == "nm" \in DOMAIN s.rdr /\ p[1] < s.rdr.start + s.rdr.len /\ s.rdr.start < p[1] + p[2]
+PromoteD(s, D) == IF "D8" \in D THEN PromotePending(s)
+                  ELSE LET keep == {p \in s.pend : ReaderPins(s, p)} IN
+                       [Promote(s, s.pend \ keep) EXCEPT !.pend = keep]
 
 \* is_last_anything(region)
 IsLastAnything(s, slot) ==
@@ -258,7 +267,7 @@ Rename(s, nm, new) ==
 RemoveReg(s, nm, D) ==
   LET slot == SlotOf(s, nm) reg == s.slots[slot] IN
   IF <<reg.start, slot>> \notin s.lreg THEN [s EXCEPT !.res = "err"]      \* RegionIndexMismatch
-  ELSE IF reg.refs > 0
+  ELSE IF reg.refs > 0 \/ (IsRdr(s.rdr) /\ s.rdr.nm = nm)
   THEN IF "D1" \in D
        THEN [s EXCEPT !.lreg = s.lreg \ {<<reg.start, slot>>}, !.pend = s.pend \cup {<<reg.start, reg.res>>}, !.res = "err"]
        ELSE [s EXCEPT !.res = "err"]
@@ -276,15 +285,15 @@ DirtySlots(s) == {i \in Live(s) : s.slots[i].dirty \/ s.slots[i].st = "NF"}
 Flush(s, D) ==
   LET ds == DirtySlots(s) IN
   IF ds = {}
-  THEN IF "D15" \in D THEN [PromotePending(s) EXCEPT !.res = "ok"]
+  THEN IF "D15" \in D THEN [PromoteD(s, D) EXCEPT !.res = "ok"]
        ELSE \* intended: metadata made durable before freed extents become reusable
-            [PromotePending([s EXCEPT !.io = IF s.pend = {} THEN s.io ELSE Append(s.io, [k |-> "syncmeta"])]) EXCEPT !.res = "ok"]
+            [PromoteD([s EXCEPT !.io = IF s.pend = {} THEN s.io ELSE Append(s.io, [k |-> "syncmeta"])], D) EXCEPT !.res = "ok"]
   ELSE LET s1 == [s EXCEPT !.slots = [i \in 1..Len(s.slots) |->
                                         IF i \in ds THEN [s.slots[i] EXCEPT !.dirty = FALSE,
                                                                         !.st = IF s.slots[i].st = "NF" THEN "CL" ELSE s.slots[i].st]
                                         ELSE s.slots[i]],
                            !.io = s.io \o << [k |-> "syncdata"], [k |-> "syncmeta"] >>]
-       IN [PromotePending(s1) EXCEPT !.res = "ok"]
+       IN [PromoteD(s1, D) EXCEPT !.res = "ok"]
 
 RegionFlush(s, nm) ==
   LET slot == SlotOf(s, nm) reg == s.slots[slot] IN
@@ -305,7 +314,9 @@ Compact(s, D) ==
   LET s1 == Flush(s, D)
       tails == {<<s1.slots[i].start + Ceil(s1.slots[i].len), s1.slots[i].res - Ceil(s1.slots[i].len)>> :
                   i \in {j \in Live(s1) : Ceil(s1.slots[j].len) < s1.slots[j].res}}
-      s2 == PunchAll(s1, tails \cup HoleSet(s1))
+      \* intended design (reader.rs: "blocks file growth and compaction while held"): what a live reader maps is not punched; D36 is its absence
+      all == tails \cup HoleSet(s1)
+      s2 == PunchAll(s1, IF "D36" \in D THEN all ELSE {q \in all : ~ReaderPins(s1, q)})
   IN [s2 EXCEPT !.io = Append(s2.io, [k |-> "syncdata"]), !.res = "ok"]
 
 \* close and reopen: Regions::fill + Layout::from on what the files hold (no crash: the page cache)
@@ -349,19 +360,34 @@ Alloc(s) == [regs |-> {<<s.slots[i].id, s.slots[i].start, s.slots[i].len, s.slot
 (***************************************************************************)
 (* Step bookkeeping                                                        *)
 (***************************************************************************)
+\* the reader holds the mmap read lock: a call that must grow the file cannot complete while it lives
+NoGrowth(s) == IsRdr(r.rdr) => s.fileLen = r.fileLen
+\* keep the reader's ghost up to date: after a step, add what its region now holds at every offset of the snapshot
+Seen(gg, s) ==
+  IF ~IsRdr(s.rdr) THEN gg
+  ELSE IF ~Exists(s, s.rdr.nm) THEN gg
+  ELSE LET reg == s.slots[SlotOf(s, s.rdr.nm)] IN
+       [gg EXCEPT !.rseen = [k \in 1..Len(gg.rseen) |->
+                               IF k <= reg.len THEN gg.rseen[k] \cup {Cell(s, reg.start + k - 1)} ELSE gg.rseen[k]]]
+
 LastK(op, args) == LET l == Append(g.last, <<op, args>>) IN
                    IF Len(l) > HistK THEN SubSeq(l, Len(l) - HistK + 1, Len(l)) ELSE l
 
 Step(op, args, s, gg) ==
+  /\ NoGrowth(s)
   /\ r' = [s EXCEPT !.io = <<>>, !.path = "-"]
-  /\ g' = [gg EXCEPT !.last = LastK(op, args)]
+  /\ g' = [Seen(gg, s) EXCEPT !.last = LastK(op, args)]
   /\ n' = n + 1
   /\ hist' = Append(hist, [op |-> op, args |-> args, res |-> s.res, must |-> gg.must, path |-> s.path,
                            exp |-> GObs(gg), impl |-> Obs(s), alloc |-> Alloc(s), pend |-> s.pend, resv |-> s.resv,
-                           dev |-> gg.dev, io |-> s.io, persist |-> gg.persist])
+                           dev |-> gg.dev, io |-> s.io, persist |-> gg.persist,
+                           rdr |-> IF IsRdr(s.rdr) THEN ReadRange(s, s.rdr.start, s.rdr.len) ELSE <<>>,
+                           rseen |-> Seen(gg, s).rseen])
 
 PreSteps == IF PreWrite THEN 2 * PreN + 1 ELSE PreN
 Alive == n < Depth /\ Len(hist) >= PreSteps
+\* regions both the implementation state and the reference know (they differ only after a tagged deviation)
+KnownNames == LiveNames(r) \cap DOMAIN g.ref
 Start(s) == [s EXCEPT !.io = <<>>, !.path = "-"]
 rr == Start(r)
 
@@ -376,7 +402,7 @@ ACreate ==
 
 AWrite ==
   /\ "write" \in Ops /\ Alive
-  /\ \E nm \in LiveNames(r), k \in WKinds, sz \in Sizes :
+  /\ \E nm \in KnownNames, k \in WKinds, sz \in Sizes :
        LET old == g.ref[nm]
            at == CASE k = "append" -> -1 [] k = "at0" -> 0 [] k = "atend" -> Len(old)
                    [] k = "tw0" -> 0 [] k = "tw1" -> Min2(1, Len(old)) [] k = "oob" -> Len(old) + 1
@@ -393,7 +419,7 @@ AWrite ==
 
 ATruncate ==
   /\ "truncate" \in Ops /\ Alive
-  /\ \E nm \in LiveNames(r) : \E to \in {0, 1, Len(g.ref[nm]) + 1} :
+  /\ \E nm \in KnownNames : \E to \in {0, 1, Len(g.ref[nm]) + 1} :
        /\ (to = 1 => Len(g.ref[nm]) > 1)
        /\ Step("truncate", <<nm, to>>, TruncateReg(rr, nm, to),
                IF to > Len(g.ref[nm]) THEN [g EXCEPT !.must = "err"]
@@ -402,7 +428,7 @@ ATruncate ==
 
 ARename ==
   /\ "rename" \in Ops /\ Alive
-  /\ \E nm \in LiveNames(r), new \in Names :
+  /\ \E nm \in KnownNames, new \in Names :
        /\ new # nm
        /\ Step("rename", <<nm, new>>, Rename(rr, nm, new),
                IF Exists(r, new) THEN [g EXCEPT !.must = "err"]
@@ -411,17 +437,17 @@ ARename ==
 
 ARemove ==
   /\ "remove" \in Ops /\ Alive
-  /\ \E nm \in LiveNames(r) :
+  /\ \E nm \in KnownNames :
        LET s == RemoveReg(rr, nm, Dev)
            d == {e \in Dev : RemoveReg(rr, nm, Dev \ {e}) # s}
        IN Step("remove", <<nm>>, s,
-               Tag(IF r.slots[SlotOf(r, nm)].refs > 0 THEN [g EXCEPT !.must = "err"]
+               Tag(IF r.slots[SlotOf(r, nm)].refs > 0 \/ (IsRdr(r.rdr) /\ r.rdr.nm = nm) THEN [g EXCEPT !.must = "err"]
                    ELSE [g EXCEPT !.ref = [x \in DOMAIN g.ref \ {nm} |-> g.ref[x]], !.persist = g.persist \ {nm}, !.must = "ok"], d))
 
 \* the caller keeps / drops an extra handle to a region (affects only the refusal of remove)
 AHold ==
   /\ "hold" \in Ops /\ Alive
-  /\ \E nm \in LiveNames(r) :
+  /\ \E nm \in KnownNames :
        LET slot == SlotOf(r, nm) IN
        /\ r.slots[slot].refs = 0
        /\ Step("hold", <<nm>>, [rr EXCEPT !.slots[slot].refs = 1, !.res = "ok"], [g EXCEPT !.must = "ok"])
@@ -439,7 +465,7 @@ AFlush ==
 
 ARegionFlush ==
   /\ "rflush" \in Ops /\ Alive
-  /\ \E nm \in LiveNames(r) :
+  /\ \E nm \in KnownNames :
        Step("rflush", <<nm>>, RegionFlush(rr, nm), [g EXCEPT !.must = "either"])
 
 ACompact ==
@@ -449,7 +475,7 @@ ACompact ==
      IN Step("compact", <<>>, s, Tag([g EXCEPT !.must = "ok"], dd))
 
 AReopen ==
-  /\ "reopen" \in Ops /\ Alive
+  /\ "reopen" \in Ops /\ Alive /\ ~IsRdr(r.rdr)
   /\ \A i \in Live(r) : r.slots[i].refs = 0
   /\ LET s == FlushReopen(rr, Dev)
          dd == {e \in Dev : FlushReopen(rr, Dev \ {e}) # s}
@@ -462,7 +488,7 @@ Pre == SubSeq(<<"a", "b", "c", "d", "e", "f">>, 1, PreN)
 PreRec(op, args, s1, g1) ==
   [op |-> op, args |-> args, res |-> s1.res, must |-> "ok", path |-> s1.path,
    exp |-> GObs(g1), impl |-> Obs(s1), alloc |-> Alloc(s1), pend |-> s1.pend, resv |-> s1.resv,
-   dev |-> {}, io |-> s1.io, persist |-> g1.persist]
+   dev |-> {}, io |-> s1.io, persist |-> g1.persist, rdr |-> <<>>, rseen |-> <<>>]
 APre ==
   /\ Len(hist) < PreSteps
   /\ LET k == Len(hist) + 1 IN
@@ -486,7 +512,24 @@ APre ==
 
 Init == r = R0 /\ g = G0 /\ n = 0 /\ hist = <<>>
 
-Next == \/ APre \/ ACreate \/ AWrite \/ ATruncate \/ ARename \/ ARemove \/ AHold \/ ARelease
+\* a Reader: snapshot of (start, len) at creation, reads later go through the snapshot
+AReaderNew ==
+  /\ "reader" \in Ops /\ Alive /\ ~IsRdr(r.rdr)
+  /\ \E nm \in KnownNames :
+       LET reg == r.slots[SlotOf(r, nm)] IN
+       /\ reg.len > 0
+       /\ Step("reader_new", <<nm>>, [rr EXCEPT !.rdr = [nm |-> nm, start |-> reg.start, len |-> reg.len], !.res = "ok"],
+               [g EXCEPT !.rseen = [k \in 1..reg.len |-> {Cell(r, reg.start + k - 1)}], !.must = "ok"])
+
+AReaderRead ==
+  /\ "reader" \in Ops /\ Alive /\ IsRdr(r.rdr)
+  /\ Step("reader_read", <<r.rdr.nm>>, [rr EXCEPT !.res = "ok"], [g EXCEPT !.must = "ok"])
+
+AReaderDrop ==
+  /\ "reader" \in Ops /\ Alive /\ IsRdr(r.rdr)
+  /\ Step("reader_drop", <<r.rdr.nm>>, [rr EXCEPT !.rdr = None, !.res = "ok"], [g EXCEPT !.rseen = <<>>, !.must = "ok"])
+
+Next == \/ APre \/ AReaderNew \/ AReaderRead \/ AReaderDrop \/ ACreate \/ AWrite \/ ATruncate \/ ARename \/ ARemove \/ AHold \/ ARelease
         \/ AFlush \/ ARegionFlush \/ ACompact \/ AReopen
 
 Spec == Init /\ [][Next]_vars
@@ -501,6 +544,10 @@ RefEq == Untagged => Obs(r) = GObs(g)
 
 MustOk == (Untagged /\ n > 0) => /\ (g.must = "ok" => r.res = "ok")
                                  /\ (g.must = "err" => r.res = "err")
+
+\* C10: bytes obtained through a live reader are bytes its own region held since the reader was created
+ReaderOwn == (Untagged /\ IsRdr(r.rdr)) =>
+               \A k \in 1..r.rdr.len : k <= Len(g.rseen) => Cell(r, r.rdr.start + k - 1) \in g.rseen[k]
 
 \* C02: extents
 Extents(s) == {<<s.slots[i].start, s.slots[i].res, "r">> : i \in Live(s)}
